@@ -35,6 +35,13 @@ func c05CLICases(tier string) []engine.Case {
 				}
 			}
 		}
+		// YAML files read with -yaml: distinct texts that denote distinct values (a raw tab inside a quoted scalar
+		// against two spaces, block scalars with different chomping, a comment against none changes nothing)
+		for _, a := range c05CLIYaml {
+			for _, b := range c05CLIYaml {
+				out = append(out, engine.Case{Kind: "c05cliy:" + bin, Leg: "cli-yaml/" + bin, A: a[0], B: b[0], X: a[1] + "|" + b[1]})
+			}
+		}
 		for _, fl := range c05CLIFlags {
 			for _, f := range []string{"jd", "patch", "merge"} {
 				for _, a := range docs {
@@ -50,6 +57,29 @@ func c05CLICases(tier string) []engine.Case {
 		}
 	}
 	return out
+}
+
+// (YAML text, JSON value it denotes)
+var c05CLIYaml = [][2]string{{"k: \"a\tb\"\n", `{"k":"a\tb"}`}, {"k: \"a  b\"\n", `{"k":"a  b"}`}, {"k: 'a\tb'\n", `{"k":"a\tb"}`}, {"k: \"a\\tb\" # tab\n", `{"k":"a\tb"}`},
+	{"k: |\n  x\n", `{"k":"x\n"}`}, {"k: |-\n  x\n", `{"k":"x"}`}, {"k: x\n", `{"k":"x"}`}, {"k: [1, 2]\n", `{"k":[1,2]}`}, {"k:\n- 1\n- 2\n", `{"k":[1,2]}`}}
+
+func runC05CLIYaml(c *engine.Case) engine.Result {
+	bin := strings.TrimPrefix(c.Kind, "c05cliy:")
+	vals := strings.SplitN(c.X, "|", 2)
+	want := ref.Equal(ref.MustParse(vals[0]), ref.MustParse(vals[1]), ref.List)
+	dir := cli.TempDir()
+	defer os.RemoveAll(dir)
+	out := cli.Run(dir, cli.Bin(bin), []string{"-yaml", cli.WriteFile(dir, "a.yaml", c.A), cli.WriteFile(dir, "b.yaml", c.B)}, nil)
+	res := engine.Result{Transitions: 1, Traces: 1, Nontrivial: c.A != c.B, Bucket: fmt.Sprintf("cli-yaml/equal=%v/exit=%d", want, out.Exit)}
+	switch {
+	case out.Timeout:
+		res.Violation = "CLI did not terminate"
+	case want && out.Exit != 0:
+		res.Violation = fmt.Sprintf("jd -yaml: the two files denote the same document but the exit status is %d (stdout %q stderr %q)", out.Exit, out.Stdout, firstLine(out.Stderr))
+	case !want && out.Exit != 1:
+		res.Violation = fmt.Sprintf("jd -yaml: the two files denote different documents (%s, %s) but the exit status is %d (stdout %q stderr %q)", vals[0], vals[1], out.Exit, out.Stdout, firstLine(out.Stderr))
+	}
+	return res
 }
 
 func flagsToOptName(flags string) string {
